@@ -28,6 +28,19 @@ CLAIMS = {
         "Lean 4 proof (purity by construction) + differential histories against the pure model", "§7 C20"),
 }
 
+CLAIMS["C14"] = (
+    "Proof (Lean 4, Props/C14) about a model of the parser (Parse.lean: the scan loop of parse_until, the n-or-empty unit parsers, the "
+    "chain builder, handlers, options), for every syn oracle and over the determiner table regenerated from /repo: determiners see only "
+    "top-level token shapes (group contents and literal text invisible); a scan stops only at a first-matching determiner after a "
+    "complete operand, never inside an incomplete one, and never reorders or loses tokens; an operand without a top-level split point "
+    "followed by [~] operator [>>>] is returned exactly with the flags of exactly that operator (round trip of one unit); overlapping "
+    "operators resolve to the longest documented one for all continuations/spacings; Rust's own shift/comparison/logic/assignment "
+    "operators are never DSL operators. Tie: K1-parse (model + syn's answers vs the real parser: outcome class and structure) and a "
+    "round-trip oracle on the real parser (structured programs over adversarial operands, rendered and re-parsed).",
+    NOTE_COMMON + "syn is an oracle: what it accepts as Expr/Type is computed by the real syn for every compared input and quantified over in "
+    "the theorems; the chain-level round trip (whole branches, wrappers, let, handlers, options) is decided by the oracle runs on the real "
+    "parser and by K1-parse, the Lean round-trip theorem covers one unit (operand + operator + flags).",
+    "Lean 4 proof on a parser model with syn as oracle + K1-parse differential + round-trip oracle on the real parser", "§7 C14")
 CLAIMS["C15"] = (
     "Totality: the model pipeline is a total Lean function whose every expect()/unwrap()/panic! site is an explicit outcome; theorems "
     "(Props/C15) show which outcomes are reachable. The deciding tie for the implementation is K1 with an implementation-side oracle on "
